@@ -5,7 +5,7 @@ WAVE = sys.argv[3] if len(sys.argv) > 3 else ''
 out = 'out' + WAVE
 p = next(json.loads(l) for l in open('/verif/properties.jsonl') if json.loads(l)['id'] == pid)
 low = pid.lower()
-extra = ("This is a second round: favour defects that depend on STATE accumulated across several operations (a cache or memo that is not invalidated on one path, an index or counter left stale by one kind of update, a reconfiguration or restart sequence, reuse of a long-lived object after an error), on BOUNDARY values (zero, maximum, one past the limit, empty collections, exact equality at a threshold) or on an unusual but legal COMBINATION of settings. " if WAVE else "")
+extra = ("This is a second round: favour defects that depend on STATE accumulated across several operations (a cache or memo that is not invalidated on one path, an index or counter left stale by one kind of update, a reconfiguration or restart sequence, reuse of a long-lived object after an error), on BOUNDARY values (zero, maximum, one past the limit, empty collections, exact equality at a threshold) or on an unusual but legal COMBINATION of settings. " if WAVE == "2" else ("This is a third round: favour (i) TWO COOPERATING edits at different sites that each look harmless alone and only together break the property, (ii) defects that only show under a FAULT at a particular point (an I/O or network error, a rejected operation, a restart or crash between two steps) and the behaviour AFTER that fault, (iii) defects in rarely used but documented ALTERNATIVE entry points or legacy code paths that reach the same state (a second API for the same setting, config-file load vs API, IPv6 vs IPv4, TCP vs UDP), and (iv) off-by-one errors at documented limits. Avoid plain single-site condition flips. " if WAVE == "3" else ""))
 print(f"""You are testing how robust a Go code base's guarantees are. You have a scratch git worktree of AdGuard Home at /tmp/atk-{low} (a detached checkout; work ONLY there and under /tmp/atk-{low}-{out}; never touch /repo or /verif, and do not read anything under /verif).
 
 Property under attack:
